@@ -514,13 +514,15 @@ impl Monitor for C10 {
         }
         if g < N_DIRECTED {
             let cfg = if g % 4 == 3 { EqCfg { ambig: vec![(alpha[0], vec![alpha[1]])], wild: vec![*alpha.last().unwrap()] } } else { EqCfg::default() };
-            let m = [5usize, 8, 9, 16, 17, 32, 33, 63, 64, 12][(g % 10) as usize];
-            let (p, t) = gen_pattern_text(rng, &alpha, m, ctx.by_tier(60, 260, 600));
+            // under Miri (tier tiny) every traceback step costs microseconds: short patterns, short texts, and no search in
+            // which every position is a hit
+            let m = if ctx.tiny() { [5usize, 8, 9, 12, 16, 17, 9, 8, 5, 12][(g % 10) as usize] } else { [5usize, 8, 9, 16, 17, 32, 33, 63, 64, 12][(g % 10) as usize] };
+            let (p, t) = gen_pattern_text(rng, &alpha, m, ctx.by_tier(24, 260, 600));
             let mut long_t = t.clone();
-            long_t.extend(rng.bytes_over(&alpha, 3 * m + 10));
+            long_t.extend(rng.bytes_over(&alpha, if ctx.tiny() { m } else { 3 * m + 10 }));
             long_t.extend_from_slice(&p);
             let short: Vec<u8> = p[..m / 2].to_vec();
-            let searches = vec![(long_t.clone(), (m / 4).max(1)), (short, 1), (long_t, m + 2)];
+            let searches = vec![(long_t.clone(), (m / 4).max(1)), (short, 1), (long_t, if ctx.tiny() { 2 } else { m + 2 })];
             return self.search(ctx, rng, &p, &cfg, &searches);
         }
         let maxm = ctx.by_tier(16, 70, 140);
@@ -531,10 +533,13 @@ impl Monitor for C10 {
             _ => rng.range(1, 10),
         }
         .min(maxm.max(64));
-        let maxn = ctx.by_tier(40, 120, 400);
+        let tiny = ctx.tiny();
+        let m = if tiny { m.min(17) } else { m };
+        let maxn = ctx.by_tier(30, 120, 400);
         let cfg = EqCfg::random(rng, &alpha);
         let (p, t0) = gen_pattern_text(rng, &alpha, m, maxn);
         let pick_k = |rng: &mut Rng| match rng.below(8) {
+            _ if tiny => rng.usize(3), // under Miri: no search in which every position is a hit
             0 => 0,
             1 => 1,
             2 => 2,
